@@ -28,7 +28,11 @@ Record cfg := mkCfg {
   c_auto : bool;             (* opts['auto_build_trunk'] *)
   c_models : bool;           (* opts['is_build_models'] *)
   c_max_steps : option Z;    (* opts['max_steps'] *)
-  c_timeout : option Z }.    (* opts['build_timeout'] *)
+  c_timeout : option Z;      (* opts['build_timeout'] *)
+  (* two behaviours of the code that are probed on every run (both false on the tree this was
+     written against; see fixes/tableau-verdict-needs-trunk-and-finished-locks.diff) *)
+  c_fin_lock : bool;         (* the setters and build_trunk also refuse a FINISHED tableau *)
+  c_trunk_verdict : bool }.  (* valid / invalid are None unless the trunk is built *)
 
 Record st := mkSt {
   premature : bool;          (* Flag.PREMATURE *)
@@ -53,8 +57,10 @@ Definition init : st := mkSt true false false false false false false false fals
 
 Definition completed (s : st) : bool := finished s && negb (premature s).
 Definition is_premature (s : st) : bool := finished s && premature s.
-Definition valid (s : st) : option bool := if completed s && has_arg s then Some (open_zero s) else None.
-Definition invalid (s : st) : option bool := if completed s && has_arg s then Some (negb (open_zero s)) else None.
+Definition verdict_ok (c : cfg) (s : st) : bool :=
+  completed s && has_arg s && (negb (c_trunk_verdict c) || trunk s).
+Definition valid (c : cfg) (s : st) : option bool := if verdict_ok c s then Some (open_zero s) else None.
+Definition invalid (c : cfg) (s : st) : option bool := if verdict_ok c s then Some (negb (open_zero s)) else None.
 
 Inductive err := IllegalState | Timeout | DuplicateKey.
 Inductive res := ROk | REntry | RNone | RErr (e : err) | RFuel.
@@ -80,7 +86,7 @@ Definition clear_premature (s : st) : st :=
 Definition finish (c : cfg) (b2 : bool) (s : st) : st * bool :=
   if finished s then (s, false) else
   let s1 := set_finished s in
-  match invalid s1 with
+  match invalid c s1 with
   | Some true =>
       if c_models c && has_logic s1 && has_time_limit c && b2
       then (set_timed_out s1, true) else (s1, false)
@@ -121,26 +127,27 @@ Definition build (c : cfg) (k : option nat) (b2 : bool) (s : st) : st * res :=
 Definition do_trunk (s : st) : st :=
   mkSt (premature s) (finished s) (timed_out s) true true (has_logic s) (has_arg s) true (added s)
        false (hist s) (nrules s).
-Definition build_trunk (s : st) : st * res :=
+Definition refuses (c : cfg) (s : st) : bool := started s || (c_fin_lock c && finished s).
+Definition build_trunk (c : cfg) (s : st) : st * res :=
   if trunk s then (s, RErr IllegalState) else
   if negb (has_arg s) then (s, RErr IllegalState) else
   if negb (has_logic s) then (s, RErr IllegalState) else
-  if started s then (s, RErr IllegalState) else (do_trunk s, ROk).
+  if refuses c s then (s, RErr IllegalState) else (do_trunk s, ROk).
 
 (* argument setter *)
 Definition set_argument (c : cfg) (s : st) : st * res :=
-  if started s then (s, RErr IllegalState) else
+  if refuses c s then (s, RErr IllegalState) else
   let s1 := mkSt (premature s) (finished s) (timed_out s) (trunk s) (started s) (has_logic s) true (locked s) (added s)
                  (open_zero s) (hist s) (nrules s) in
-  if has_logic s1 && c_auto c then build_trunk s1 else (s1, ROk).
+  if has_logic s1 && c_auto c then build_trunk c s1 else (s1, ROk).
 
 (* logic setter: rules.clear() then the logic's rules *)
 Definition set_logic (c : cfg) (s : st) : st * res :=
-  if started s then (s, RErr IllegalState) else
+  if refuses c s then (s, RErr IllegalState) else
   if locked s then (s, RErr IllegalState) else
   let s1 := mkSt (premature s) (finished s) (timed_out s) (trunk s) (started s) true (has_arg s) (locked s) false
                  (open_zero s) (hist s) (c_nrules c) in
-  if has_arg s1 && c_auto c then build_trunk s1 else (s1, ROk).
+  if has_arg s1 && c_auto c then build_trunk c s1 else (s1, ROk).
 
 (* tab.rules.append(ExtraRule) *)
 Definition add_rule (s : st) : st * res :=
@@ -165,7 +172,7 @@ Definition exec (c : cfg) (s : st) (o : op) : st * res :=
   | Build k b2 => build c k b2 s
   | SetArgument => set_argument c s
   | SetLogic => set_logic c s
-  | BuildTrunk => build_trunk s
+  | BuildTrunk => build_trunk c s
   | AddRule => add_rule s
   end.
 
@@ -179,6 +186,6 @@ Definition run (c : cfg) (ops : list op) : st := fold_left (fun s o => fst (exec
 
 (* what the correspondence compares after every call *)
 Definition obs := (res * (bool * bool * bool * bool * bool) * (option bool * option bool) * (bool * nat * nat))%type.
-Definition observe (x : res) (s : st) : obs :=
-  (x, (premature s, finished s, timed_out s, trunk s, started s), (valid s, invalid s), (locked s, hist s, nrules s)).
-Definition otrace (c : cfg) (ops : list op) : list obs := map (fun p => observe (fst p) (snd p)) (trace c init ops).
+Definition observe (c : cfg) (x : res) (s : st) : obs :=
+  (x, (premature s, finished s, timed_out s, trunk s, started s), (valid c s, invalid c s), (locked s, hist s, nrules s)).
+Definition otrace (c : cfg) (ops : list op) : list obs := map (fun p => observe c (fst p) (snd p)) (trace c init ops).
